@@ -2016,12 +2016,16 @@ impl<'a> Ctx<'a> {
                 };
 
                 let val = if let Some(e) = value.next() {
-                    let Some(result) = e
-                        .parse()
-                        .ok()
-                        .and_then(|e| 10_u64.checked_pow(e))
-                        .and_then(|e| base.checked_mul(e))
-                    else {
+                    // `0eN` is 0 whatever `N` is, even when `10^N` itself doesn't fit
+                    let result = if base == 0 {
+                        Some(0)
+                    } else {
+                        e.parse()
+                            .ok()
+                            .and_then(|e| 10_u64.checked_pow(e))
+                            .and_then(|e| base.checked_mul(e))
+                    };
+                    let Some(result) = result else {
                         self.diagnostics.push(LoweringDiagnostic {
                             kind: LoweringDiagnosticKind::OutOfRangeIntLiteral,
                             range: int_literal.range(self.tree),
